@@ -195,7 +195,7 @@ pub fn run(eng: &mut Engine) {
     eng.prop_part(
         "tombstone",
         "metamorphic: the same history is run twice (control / with 1-2 tombstone operations at generated points, labels and cut-offs) and compared with each other and the model after every change; non-trivial = cut-off strictly inside the label's version list AND the label is published again afterwards; distinct by case",
-        eng.tier.pick(800, 8000),
+        eng.tier.pick(800, 4000),
         || strategy(thorough),
         check,
     );
